@@ -11,7 +11,7 @@ import tempfile
 
 HERE = os.path.dirname(os.path.abspath(__file__))
 VERIF = os.path.dirname(HERE)
-PROPS = ["C%02d" % i for i in range(1, 20) if i != 4]
+PROPS = ["C%02d" % i for i in range(1, 20)]
 MAX_CACHED_TREES = 160
 
 
